@@ -393,11 +393,13 @@ fn minimise_ref(r: &RefNode, run_ref: &dyn Fn(&RefNode, bool, &Area) -> Outcome)
     }
     let mut keep_kind = area.kind() != "cell";
     if keep_kind {
-        let v = area.first_cell();
-        if let Some(f) = fails(&run_ref(r, strip, &v)) {
-            area = v;
-            mode = f.0;
-            keep_kind = false;
+        for v in [area.first_cell(), area.last_cell()] {
+            if let Some(f) = fails(&run_ref(r, strip, &v)) {
+                area = v;
+                mode = f.0;
+                keep_kind = false;
+                break;
+            }
         }
     }
     let mut label = if keep_kind { area.kind().to_string() } else { "ref".to_string() };
